@@ -590,7 +590,8 @@ def Site.validated (s : Site) : Bool :=
   | .prim p, .int q cs => p == q && (parseIntFor p cs).isSome
   | .prim p, .fp cs => p.isFloat && fpAccepted p cs
   | .uint b, .nat n => decide (n < 2 ^ b)
-  | .prim _, .nat _ => true
+  -- header-filler constants: the member has an integer or char type that holds the value (bf3e3ae, ceb9ad3)
+  | .prim p, .nat n => !p.isFloat && inPrimRange p (n : Int)
   | .prim p, .deflt a text => text == defaultText a p
   | .prim p, .enumRef v =>
     (match v with
@@ -697,12 +698,17 @@ end Sbepp.Gen.Literals
 namespace Sbepp.Gen.Literals
 open Sbepp
 
-/-- sites whose value sbeppc pastes without any check of its own: header-filler constants braced into the
-    header member type, and the enumerator behind a `valueRef` braced into the constant's type -/
+theorem natFits_of_range (p : Prim) (n : Nat) (hf : p.isFloat = false) (h : inPrimRange p (n : Int) = true) :
+    natFits p n = true := by
+  cases p <;> simp [Prim.isFloat] at hf <;> simp [inPrimRange, primRange?] at h <;> simp [natFits, primMaxNat?] <;> omega
+
+/-- the one kind of site whose value sbeppc does not check against the type it is braced into: the enumerator
+    behind a `valueRef`, where the constant's type is `float` / `double` (`value_ref_fits_into_type` reads the
+    enumerator text with `strtof` / `strtod`, the generated code converts the enumerator's integer value); the
+    second disjunct is the model's placeholder for a `valueRef` that does not resolve (rejected by sbeppc) -/
 def Site.unchecked (s : Site) : Bool :=
   match s.target, s.text with
-  | .prim _, .nat _ => true
-  | .prim _, .enumRef _ => true
+  | .prim p, .enumRef v => p.isFloat || v.isNone
   | _, _ => false
 
 /-- with the generator normalising numbers and escaping text, every validated site other than the unchecked
@@ -713,6 +719,19 @@ theorem site_fits_checked (s : Site)
     (hv : s.validated = true) (hu : s.unchecked = false) : s.verdict = .ok := by
   apply site_fits s hv
   obtain ⟨kind, entity, text, target⟩ := s
-  cases target <;> cases text <;> simp_all [Site.plain, Site.unchecked]
+  cases target with
+  | prim p =>
+    cases text with
+    | nat n =>
+      simp only [Site.validated, Bool.and_eq_true, Bool.not_eq_true'] at hv
+      exact natFits_of_range p n hv.1 hv.2
+    | enumRef v =>
+      cases v with
+      | none => simp [Site.unchecked] at hu
+      | some x =>
+        simp only [Site.unchecked, Option.isNone_some, Bool.or_false] at hu
+        simp [Site.plain, hu]
+    | _ => simp_all [Site.plain]
+  | _ => cases text <;> simp_all [Site.plain]
 
 end Sbepp.Gen.Literals
